@@ -203,7 +203,7 @@ ZBIN(z_sub, _ZNK4ikos8z_numbermiES0_, IN2(ZB), ZV(ret) == ZV(self) - ZV(x))
 #define DIVB ZB
 #endif
 //@check id=z_mul fn=_ZNK4ikos8z_numbermlES0_ props=C20 backends=minisat,z3,cvc5 first_timeout=60
-//@check id=z_mul_precise fn=_ZNK4ikos8z_numbermlES0_ tag=z_mul harness=h_z_mul props=C20 defs=GM_PRECISE,GM_FLAT tier=thorough backends=minisat,cvc5 first_timeout=400 timeout=600
+//@check id=z_mul_precise fn=_ZNK4ikos8z_numbermlES0_ tag=z_mul harness=h_z_mul props=C20 defs=GM_PRECISE,GM_FLAT tier=thorough backends=minisat,cvc5 first_timeout=400 timeout=600 bounded="bit-precise small arithmetic: operands below 2^k in magnitude only"
 ZBIN(z_mul, _ZNK4ikos8z_numbermlES0_, IN2(MULB), ZV(ret) == GM_mul(ZV(self), ZV(x)))
 //@check id=z_neg fn=_ZNK4ikos8z_numberngEv props=C20 backends=minisat,z3,cvc5 first_timeout=60
 void _ZNK4ikos8z_numberngEv(Z *ret, Z *self)
@@ -221,11 +221,11 @@ void h_z_neg(void){ INZ(a); Z r; _ZNK4ikos8z_numberngEv(&r, &a); REACH; }
 #endif
 //@check id=z_div fn=_ZNK4ikos8z_numberdvES0_ props=C20 allow_error=1 backends=minisat,z3,cvc5 first_timeout=60
 //@check id=z_div_noexit fn=_ZNK4ikos8z_numberdvES0_ tag=z_div harness=h_z_div props=C20 backends=minisat,z3,cvc5 first_timeout=60
-//@check id=z_div_precise fn=_ZNK4ikos8z_numberdvES0_ tag=z_div harness=h_z_div props=C20 allow_error=1 defs=GM_PRECISE,GM_FLAT tier=thorough backends=minisat,cvc5 first_timeout=400 timeout=600
+//@check id=z_div_precise fn=_ZNK4ikos8z_numberdvES0_ tag=z_div harness=h_z_div props=C20 allow_error=1 defs=GM_PRECISE,GM_FLAT tier=thorough backends=minisat,cvc5 first_timeout=400 timeout=600 bounded="bit-precise small arithmetic: operands below 2^k in magnitude only"
 ZBIN(z_div, _ZNK4ikos8z_numberdvES0_, IN2(DIVB) && NOEXIT_DIV, ZV(x) != 0 && ZV(ret) == GM_tdiv(ZV(self), ZV(x)))
 //@check id=z_rem fn=_ZNK4ikos8z_numberrmES0_ props=C20 allow_error=1 backends=minisat,z3,cvc5 first_timeout=60
 //@check id=z_rem_noexit fn=_ZNK4ikos8z_numberrmES0_ tag=z_rem harness=h_z_rem props=C20 backends=minisat,z3,cvc5 first_timeout=60
-//@check id=z_rem_precise fn=_ZNK4ikos8z_numberrmES0_ tag=z_rem harness=h_z_rem props=C20 allow_error=1 defs=GM_PRECISE,GM_FLAT tier=thorough backends=minisat,cvc5 first_timeout=400 timeout=600
+//@check id=z_rem_precise fn=_ZNK4ikos8z_numberrmES0_ tag=z_rem harness=h_z_rem props=C20 allow_error=1 defs=GM_PRECISE,GM_FLAT tier=thorough backends=minisat,cvc5 first_timeout=400 timeout=600 bounded="bit-precise small arithmetic: operands below 2^k in magnitude only"
 ZBIN(z_rem, _ZNK4ikos8z_numberrmES0_, IN2(DIVB) && NOEXIT_DIV, ZV(x) != 0 && ZV(ret) == GM_trem(ZV(self), ZV(x)))
 
 //@check id=z_add_asg fn=_ZN4ikos8z_numberpLES0_ props=C20 backends=minisat,z3,cvc5 first_timeout=60
@@ -313,7 +313,7 @@ ZBIN(z_shr, _ZNK4ikos8z_numberrsES0_, IN2(ZLIM) && ZV(x) >= 0 && ZV(x) < P2(64),
 #ifndef FILLBITS
 #define FILLBITS 8
 #endif
-//@check id=z_fill_ones fn=_ZNK4ikos8z_number9fill_onesEv props=C20 tier=thorough defs=GM_FLAT,GM_PRECISE,FILLBITS=8 unwind=10 backends=minisat,z3 first_timeout=600 timeout=600
+//@check id=z_fill_ones fn=_ZNK4ikos8z_number9fill_onesEv props=C20 tier=thorough defs=GM_FLAT,GM_PRECISE,FILLBITS=8 unwind=10 backends=minisat,z3 first_timeout=600 timeout=600 bounded="bit-precise small arithmetic: operands below 2^k in magnitude only"
 void _ZNK4ikos8z_number9fill_onesEv(Z *ret, Z *self)
 __CPROVER_requires(FRESH(z_fill_ones, ret, sizeof(Z)) && ZFRESH(z_fill_ones, self) && IN1(P2(FILLBITS)) && ZV(self) >= 0)
 __CPROVER_assigns(*ret)
@@ -568,4 +568,4 @@ void h_q_neg_noleak(void){ INQ(a); Q r; _ZNK4ikos8q_numberngEv(&r, &a); _ZN4ikos
 /* fill_ones, unbounded number of iterations: loop contract (loops.json, written over the GM_FLAT representation: one positive
  * limb stored in the _mp_d field).  Invariant: result = 2^j - 1 >= 1 and (result >> 1) < x; variant: x - result.  At the
  * exit result >= x, so result is the smallest 2^j - 1 >= x.  Proved for every 0 <= x < 2^62. */
-//@check id=z_fill_ones_loop fn=_ZNK4ikos8z_number9fill_onesEv tag=z_fill_ones harness=h_z_fill_ones props=C20 defs=GM_FLAT,GM_PRECISE,FILLBITS=62 loops=1 fallback_unwind=10 backends=minisat,z3 first_timeout=300 timeout=300
+//@check id=z_fill_ones_loop fn=_ZNK4ikos8z_number9fill_onesEv tag=z_fill_ones harness=h_z_fill_ones props=C20 defs=GM_FLAT,GM_PRECISE,FILLBITS=62 loops=1 fallback_unwind=10 backends=minisat,z3 first_timeout=300 timeout=300 bounded="bit-precise small arithmetic: operands below 2^k in magnitude only"
